@@ -253,6 +253,7 @@ func runWorkers(self string, p *Prop, tier string, seed uint64, nshards int, lis
 				args = append(args, strings.Join(ss, ","))
 			}
 			cmd := exec.Command(self, args...)
+			cmd.Env = childEnv()
 			tb := &tailBuf{}
 			cmd.Stderr = tb
 			defer func() {
@@ -439,6 +440,7 @@ func BatchMain(self, verifDir string, p *Prop, tier string) int {
 		seenDeathSig[sig] = true
 		// confirm in a fresh process
 		confirm := exec.Command(self, "one", p.ID, tier, strconv.FormatUint(seed, 10), strconv.Itoa(d.idx))
+		confirm.Env = childEnv()
 		done := make(chan error, 1)
 		confirm.Start()
 		go func() { done <- confirm.Wait() }()
@@ -634,11 +636,13 @@ func BatchMain(self, verifDir string, p *Prop, tier string) int {
 			if !isKnown {
 				// confirm in a fresh process before reporting
 				cmd := exec.Command(self, "replay", path)
+				cmd.Env = childEnv()
 				outb, _ := cmd.CombinedOutput()
 				if cmd.ProcessState == nil || cmd.ProcessState.ExitCode() != 1 {
-					closer()
-					fmt.Fprintf(os.Stderr, "HARNESS-TROUBLE property=%s replay of %s in a fresh process did not reproduce:\n%s\n", p.ID, path, outb)
-					return 2
+					// reproduced twice in this process but not in a fresh one: state that
+					// outlives a run (package-level variables of the system under test) is
+					// involved. The violation is real; say how it replays.
+					fmt.Printf("  note: %s reproduces when re-executed in the batch process but not from a fresh process (process-wide state involved): %s\n", path, lastLines(string(outb), 1))
 				}
 				fmt.Printf("VIOLATION property=%s replay=%s\n", p.ID, path)
 				fmt.Printf("  signature: %s\n  %s: %s\n  minimised %d -> %d choices in %d executions\n", sig, final.Viol.Kind, final.Viol.Msg, origLen, len(choices), shrunk)
@@ -750,6 +754,7 @@ func ReplayMain(path string) int {
 		// a run that kills its process: replay it in a child and observe the death
 		self, _ := os.Executable()
 		cmd := exec.Command(self, "one", p.ID, rf.Tier, strconv.FormatUint(rf.Seed, 10), strconv.Itoa(rf.Run))
+		cmd.Env = childEnv()
 		tb := &tailBuf{}
 		cmd.Stderr = tb
 		done := make(chan error, 1)
@@ -847,4 +852,15 @@ func lastLines(s string, n int) string {
 		lines = lines[len(lines)-n:]
 	}
 	return strings.Join(lines, "\n")
+}
+
+// childEnv: worker and replay children halt on the first race report (exit 66).
+func childEnv() []string {
+	var env []string
+	for _, e := range os.Environ() {
+		if !strings.HasPrefix(e, "GORACE=") {
+			env = append(env, e)
+		}
+	}
+	return append(env, "GORACE=halt_on_error=1 exitcode=66")
 }
